@@ -586,6 +586,8 @@ class Interp:
         return self.resolve_global(st, mod, name)
 
     def resolve_global(self, st, mod, name):
+        if name in self.lib and name in getattr(self.cset, "native_only", ()):
+            return self.lib[name]       # the contract file only supplies the native (twin) meaning of this builtin
         if name in self.lib:
             v = self.lib[name]
             # module-level names of the repo shadow library names only if defined there
@@ -927,10 +929,23 @@ class Interp:
             if x is None:
                 return None
             v, _ = self.eval1(x, st)
-            if isinstance(v, SV):
-                raise Unsupported("symbolic slice bound")
             return v
         lo, hi, step = ev(sl.lower), ev(sl.upper), ev(sl.step)
+        if isinstance(base, SV) and base.kind.tag == "list" and step is None:
+            n = base.tree[0]
+            lo_t = z3.IntVal(0) if lo is None else self.coerce(lo, INT).tree
+            hi_t = n if hi is None else self.coerce(hi, INT).tree
+            # Python clamps slice bounds (negative bounds are relative to the end)
+            norm = lambda t: z3.If(t < 0, z3.If(t + n < 0, z3.IntVal(0), t + n), z3.If(t > n, n, t))
+            lo_t, hi_t = norm(lo_t), norm(hi_t)
+            res = tfresh(base.kind, "slice")
+            i = z3.Int(core.fresh_name("i"))
+            self.define([res[0] == z3.If(hi_t > lo_t, hi_t - lo_t, 0),
+                         z3.ForAll([i], z3.Implies(z3.And(0 <= i, i < res[0]), teq(tselect(res[1], i), tselect(base.tree[1], lo_t + i))))])
+            yield SV(base.kind, res), st
+            return
+        if any(isinstance(x, SV) for x in (lo, hi, step)):
+            raise Unsupported("symbolic slice bound")
         if isinstance(base, (tuple, list, str)):
             yield base[lo:hi:step], st
             return
@@ -1147,8 +1162,16 @@ class Interp:
                 yield from self.eval(e.orelse, s1)
                 continue
             sa, sb = s1.assume(tc), s1.assume(z3.Not(tc))
-            oa = list(self.eval(e.body, sa))
-            ob = list(self.eval(e.orelse, sb))
+            oa = self.eval_or_dead(e.body, sa, "ifexp-then@%d" % getattr(e, "lineno", 0))
+            ob = self.eval_or_dead(e.orelse, sb, "ifexp-else@%d" % getattr(e, "lineno", 0))
+            if oa is None and ob is None:
+                raise Unsupported("both branches of a conditional expression are unsupported")
+            if oa is None:
+                yield from ob
+                continue
+            if ob is None:
+                yield from oa
+                continue
             if len(oa) == 1 and len(ob) == 1 and (st.pure or (
                     self.same_store(oa[0][1], sa) and self.same_store(ob[0][1], sb)
                     and len(oa[0][1].pc) == len(sa.pc) and len(ob[0][1].pc) == len(sb.pc))):
@@ -1160,6 +1183,19 @@ class Interp:
                     pass
             for v, s in oa + ob:
                 yield v, s
+
+    def eval_or_dead(self, expr, st, label):
+        """evaluate; if the expression is outside the supported subset, demand that this point is unreachable
+        (obligation `dead:`) instead of giving up on the whole function"""
+        nob = len(self.obligations)
+        try:
+            return list(self.eval(expr, st))
+        except Unsupported as ex:
+            if st.pure:
+                raise
+            del self.obligations[nob:]
+            self.emit(st, "dead", "%s(%s)" % (label, str(ex)[:60].replace("/", "|")), z3.BoolVal(False))
+            return None
 
     CMP = {ast.Lt: "<", ast.LtE: "<=", ast.Gt: ">", ast.GtE: ">="}
 
